@@ -235,7 +235,63 @@ func c19Worker(c *core.Ctx, idx, w int, p *plenc.Plenc, name string, nops int, v
 	return "", retained, scratch
 }
 
+// c19Fills: equal-sized fresh values of 8..1024 bytes through one interned field, so that whatever
+// the codec keeps them in is filled to every multiple of their size, and after each of them an
+// empty value (a valid empty null.String, which plenc writes; an explicit zero-length string, which
+// other writers do): the interned fields decode what their twins without the option decode.
+func c19Fills(c *core.Ctx, idx int) {
+	rec := c.Rec
+	cfg := instCfgs()[idx%4]
+	name := cfgName(cfg)
+	check := func(p *plenc.Plenc, m []byte, what string, extra map[string]any) bool {
+		var got c19Intern
+		var twin c19Plain
+		err1, pn1 := unmarshal(p, m, &got)
+		err2, pn2 := unmarshal(p, m, &twin)
+		rec.Eval(2)
+		if (err1 != nil) != (err2 != nil) || pn1 != pn2 || got.A != twin.A || got.B != twin.B || got.N != twin.N {
+			rec.Violation("interning", fmt.Sprintf("[%s] %s, message %x decodes differently with the intern option: (%q, %q, %+v, err %v %s) vs (%q, %q, %+v, err %v %s) without", name, what, head(m, 24), trunc1(got.A), got.B, got.N.Valid, err1, trunc1(pn1), trunc1(twin.A), twin.B, twin.N.Valid, err2, trunc1(pn2)), extra)
+			return false
+		}
+		return true
+	}
+	emptyN, _, _ := marshal(instNew(cfg), nil, &c19Intern{N: null.StringFrom("")})
+	empties := [][]byte{emptyN, {0x0a, 0x00, 0x12, 0x00}} // a valid empty null.String; fields 1 and 2 present with length zero
+	for _, size := range []int{8, 16, 32, 64, 128, 256, 512, 1024} {
+		for _, total := range []int{512, 1024, 2048, 4096, 8192, 16384, 65536} {
+			n := total / size
+			if n < 1 || n > 1100 {
+				continue
+			}
+			// the first empty value arrives when exactly `total` bytes of values have gone through the field
+			p := instNew(cfg)
+			for i := 0; i < n; i++ {
+				s := fmt.Sprintf("%0*d", size, i+idx*100000)
+				b, err, pn := marshal(p, nil, &c19Intern{A: s, N: null.StringFrom(s)})
+				if err != nil || pn != "" {
+					rec.Violation("interning", fmt.Sprintf("[%s] Marshal: %v %s", name, err, pn), nil)
+					return
+				}
+				if !check(p, b, fmt.Sprintf("fresh value %d of %d bytes", i+1, size), nil) {
+					return
+				}
+			}
+			for _, m := range empties {
+				if !check(p, m, fmt.Sprintf("after %d fresh values of %d bytes each (%d bytes in all) through one interned field, the first empty value", n, size, total), map[string]any{"size": size, "values": n}) {
+					return
+				}
+			}
+			rec.Count("exact_fill_runs", 1)
+		}
+	}
+	rec.NonTrivial(core.Hash64("fills", name, fmt.Sprint(idx)))
+}
+
 func c19Case(c *core.Ctx, idx int) {
+	if idx%23 == 9 {
+		c19Fills(c, idx)
+		return
+	}
 	rec := c.Rec
 	r := c.Rand(idx)
 	cfgs := instCfgs()
